@@ -122,3 +122,26 @@ fn c07_pages_arithmetic() {
     assert!(pages.stored_len(per_page) == (if two { per_page } else { 0 }) + last.values_count() as usize);
     core::mem::forget((pages, _db));
 }
+
+/// Builder for the compressed-vector harnesses.
+pub(crate) fn mk_pages(region: Region, ps: &[Page; 3], n: usize) -> Pages {
+    assert!(n <= 3);
+    let mut vec: Vec<Page> = Vec::with_capacity(64);
+    let mut i = 0;
+    while i < 3 {
+        if i < n {
+            unsafe {
+                vec.as_mut_ptr().add(i).write(ps[i]);
+                vec.set_len(i + 1);
+            }
+        }
+        i += 1;
+    }
+    Pages { region, vec, change_at: None }
+}
+pub(crate) fn pages_region_len(p: &Pages) -> usize {
+    p.region.meta().len()
+}
+pub(crate) fn pages_pending(p: &Pages) -> bool {
+    p.change_at.is_some()
+}
